@@ -27,7 +27,7 @@ pub trait BIter: Send + Sync {
     /// overrides them) on clones: last, nth(0), nth(1) then next / next_back,
     /// nth_back(0), nth_back(1) then next_back, fold (count, sum), rfold
     /// (first element seen), rev().next()
-    fn adaptors(&self) -> [Option<usize>; 11];
+    fn adaptors(&self) -> [Option<usize>; 16];
     fn dbg(&self) -> String;
     fn boxed_clone(&self) -> Box<dyn BIter>;
 }
@@ -50,7 +50,7 @@ where
     fn count_clone(&self) -> usize {
         self.0.clone().count()
     }
-    fn adaptors(&self) -> [Option<usize>; 11] {
+    fn adaptors(&self) -> [Option<usize>; 16] {
         let last = self.0.clone().last();
         let nth0 = self.0.clone().nth(0);
         let mut a = self.0.clone();
@@ -66,7 +66,14 @@ where
         let (cnt, sum) = self.0.clone().fold((0usize, 0usize), |(c, s), p| (c + 1, s.wrapping_add(p)));
         let rfirst = self.0.clone().rfold(None, |acc: Option<usize>, p| acc.or(Some(p)));
         let revn = self.0.clone().rev().next();
-        [last, nth0, nth1, after_nth1, back_after_nth1, nb0, nb1, after_nb1, Some(cnt.wrapping_mul(1_000_003).wrapping_add(sum)), rfirst, revn]
+        // larger skips (an `nth` override would only engage from some n on)
+        let mut c = self.0.clone();
+        let nth16 = c.nth(16);
+        let after_nth16 = c.next();
+        let nth33 = self.0.clone().nth(33);
+        let nb16 = self.0.clone().nth_back(16);
+        let step: usize = self.0.clone().step_by(17).fold(0usize, |s, p| s.wrapping_mul(31).wrapping_add(p + 1));
+        [last, nth0, nth1, after_nth1, back_after_nth1, nb0, nb1, after_nb1, Some(cnt.wrapping_mul(1_000_003).wrapping_add(sum)), rfirst, revn, nth16, after_nth16, nth33, nb16, Some(step)]
     }
     fn dbg(&self) -> String {
         format!("{:?}", self.0)
@@ -237,11 +244,12 @@ impl BytesModel {
             let back_after_nth1 = if rem.len() >= 3 { gb(0) } else { None };
             // after nth_back(1) consumed two from the back
             let after_nb1 = if rem.len() >= 3 { gb(2) } else { None };
-            let exp = [gb(0), g(0), g(1), g(2), back_after_nth1, gb(0), gb(1), after_nb1, Some(rem.len().wrapping_mul(1_000_003).wrapping_add(sum)), gb(0), gb(0)];
+            let step = rem.iter().step_by(17).fold(0usize, |s, &p| s.wrapping_mul(31).wrapping_add(p as usize + 1));
+            let exp = [gb(0), g(0), g(1), g(2), back_after_nth1, gb(0), gb(1), after_nb1, Some(rem.len().wrapping_mul(1_000_003).wrapping_add(sum)), gb(0), gb(0), g(16), g(17), g(33), gb(16), Some(step)];
             let got = st.it.adaptors();
             if got != exp {
-                let names = ["last()", "nth(0)", "nth(1)", "next() after nth(1)", "next_back() after nth(1)", "nth_back(0)", "nth_back(1)", "next_back() after nth_back(1)", "fold (count, sum)", "rfold (first seen)", "rev().next()"];
-                let i = (0..11).find(|&i| got[i] != exp[i]).unwrap();
+                let names = ["last()", "nth(0)", "nth(1)", "next() after nth(1)", "next_back() after nth(1)", "nth_back(0)", "nth_back(1)", "next_back() after nth_back(1)", "fold (count, sum)", "rfold (first seen)", "rev().next()", "nth(16)", "next() after nth(16)", "nth(33)", "nth_back(16)", "step_by(17)"];
+                let i = (0..16).find(|&i| got[i] != exp[i]).unwrap();
                 return Some(format!("{} on a clone returned {:?}, reference {:?}", names[i], got[i], exp[i]));
             }
         }
@@ -573,6 +581,16 @@ fn build_cases(kinds: &[&'static str], l1: usize, l23: usize, long: bool, aligns
                         }
                         let hay = crate::leak_placed(&data, 7, nd[0]);
                         cases.push(Case { kind, nd, hay, align: 7, positions: positions(k, nd, hay) });
+                    }
+                }
+                if len == 200 {
+                    // long AND rich in matches (every byte / every 2nd / every
+                    // 3rd byte over 160..300 bytes): skips of dozens of matches
+                    // across several vectors
+                    for (l2, every) in [(160usize, 1usize), (300, 2), (300, 3)] {
+                        let data: Vec<u8> = (0..l2).map(|i| if i % every == 0 { nd[(i / every) % k] } else { other }).collect();
+                        let hay = crate::leak_placed(&data, 9, nd[0]);
+                        cases.push(Case { kind, nd, hay, align: 9, positions: positions(k, nd, hay) });
                     }
                 }
                 if len <= 70 {
